@@ -219,6 +219,8 @@ def core_cases():
     out.append(build_case(H[2], "full", "root", "user+sysunrelated"))
     out.append(build_case(H[2], "full", "root", "both", anchors_only=True))
     out.append(build_case(H[1], "full", "none", "system", passthrough=True))
+    # CertificateTrustPolicy::passthrough() starts from an empty EKU set: documentSigning alone is then not accepted by the profile step
+    out.append(build_case(hierarchy("eku-docsign", 1, ["p256"], ee_variant="docsign"), "full", "none", "system", passthrough=True))
     out.append(build_case(H[1], "full", "root", "system", variant="ignore"))
     out.append(build_case(H[1], "full", "root", "system", verify_trust=False))
     out.append(build_case(H[1], "full", "unrelated", "system", verify_trust=False, allow="pem"))
@@ -313,7 +315,7 @@ def model_expr(c):
     n_chain = len(c["chain"]) - 1
     chain_ids = "[" + "; ".join(("666" if c.get("junk_chain") and i == n_chain - 1 else str(20 + i)) for i in range(n_chain)) + "]%N"
     allowed = "[900; 7; 901]%N" if c["allowed"] else ("[900]%N" if d["allowed_list"] else "[]")
-    pol = (f"{{| system_anchors := {sys_ids}; user_anchors := {usr_ids}; allowed := {allowed}; additional_ekus := {K.coq_ekus(c['trust_config'])}; "
+    pol = (f"{{| system_anchors := {sys_ids}; user_anchors := {usr_ids}; allowed := {allowed}; additional_ekus := {K.coq_ekus(c['trust_config'], not d['passthrough'])}; "
            f"passthrough := {K.b(d['passthrough'])}; anchors_only := {K.b(d['anchors_only'])} |}}")
     ver = {"trust": "VerifyTrustPolicy N p", "profile": "VerifyCertificateProfileOnly N p", "ignore": "IgnoreProfileAndTrustPolicy N"}[d["variant"]]
     return (f"let chains := fun (a : list N) (_ : N) (_ : list N) (_ : option Z) => match a with x :: _ => if (x <? 100)%N then {K.b(c['chains_sys'])} else {K.b(c['chains_usr'])} | [] => false end in "
@@ -337,10 +339,10 @@ def model_out(term):
 
 def evaluate(ctx, cases, with_model=True):
     slim = [{k: c[k] for k in ("id", "chain", "key", "alg", "e2e", "settings", "direct")} for c in cases]
-    impl = common.run_harness("c05", slim, timeout=3600)
+    impl = K.run_cases("c05", slim)
     model = None
     if with_model:
-        model = common.coq_eval("C05", K.IMPORTS, [model_expr(c) for c in cases], shard_size=60, timeout=1800)
+        model = common.coq_eval("C05", K.IMPORTS, [model_expr(c) for c in cases], shard_size=12, timeout=1800)
     stats = {"verdicts": {}, "anchor_types": {}, "e2e_states": {}, "depth": {}, "presentation": {}, "anchor": {}, "allow": {},
              "trust_off": 0, "anchors_only": 0, "passthrough": 0, "with_signing_time": 0, "eku_not_accepted": 0, "e2e_read": 0,
              "justified": 0, "unjustified": 0}
@@ -391,7 +393,7 @@ def evaluate(ctx, cases, with_model=True):
                 elif trusted and not justified:
                     ctx.report_violation(rep, "reported trusted although the certificate is not allow-listed and does not chain to a permitted anchor "
                                               f"(openssl verify: system={c['chains_sys']} user={c['chains_usr']}, anchors_only={d['anchors_only']})", mi)
-                if trusted and not c["eku_ok"] and not cred_fail and not c["model"]["pss"][0] == "unparsable":
+                if trusted and not c["eku_ok"] and not cred_fail:
                     ctx.report_violation(rep, f"EKU set not accepted, yet trusted and no signingCredential.invalid: {vcodes}", mi)
             if d["anchors_only"] and rd["trust"] == "User":
                 ctx.report_violation(rep, "trust-anchors-only mode accepted a user anchor", mi)
